@@ -17,7 +17,9 @@ META = {
     'level_text': 'TLC enumerates every interleaving of SetCursor, complete FetchCursor and FetchCursor split at the '
                   'point between its log scan and its cache fill (two clients), over three cursor keys with a 2-entry '
                   'LRU or the cache switched off, with segment rolls and cleans of the cursors partition, pause/resume '
-                  'and restart, and proves that every fetch returns the last successful set (or a set that overlapped '
+                  'and restart, SetCursor calls that fail with their record left uncommitted in the log, and cleans split in '
+                  'their two steps (compaction on a snapshot, then the segment swap) with sets and segment rolls in between, '
+                  'and proves that every fetch returns the last successful set (or a set that overlapped '
                   'it). Simulated deeper behaviours of the same specification are executed on the real server '
                   '(apiServer.SetCursor/FetchCursor, __cursors with 2-entry segments and compaction, LRU shrunk to 2, '
                   'log.Clean(), the partition\'s own requestPause(), Server.Stop()/restart over the same data '
@@ -25,7 +27,7 @@ META = {
     'level_note': 'One-node server: the cursors-partition leader change on a 3-node cluster is not exercised; the '
                   'purge on becoming leader is exercised through pause/resume (conformance level). Overlap of calls is '
                   'driven through the verif gate cursors.fetch.scanned (SetCursor calls never overlap each other). '
-                  'Bounds: design quick <= 4 sets / 7 steps / 2 faults, thorough <= 4 sets / 8 steps, two splitting clients; '
+                  'Bounds: design quick <= 4 sets (1 failed) / 7 steps / 2 faults, thorough <= 4 sets / 8 steps, two splitting clients; '
                   'replayed behaviours <= 16 steps.',
     'design_ref': 'DESIGN.md section 6/C11',
 }
@@ -64,10 +66,23 @@ def overlap(b):
     return False
 
 
+def clean_window_sets(b):
+    """SetCursor calls (appends, possibly segment rolls) between the two steps of a clean"""
+    n, inside = 0, False
+    for s in b['steps']:
+        if s['a'] == 'CleanBegin':
+            inside = True
+        elif s['a'] == 'CleanEnd':
+            inside = False
+        elif inside and s['a'] in ('Set', 'SetFail'):
+            n += 1
+    return n
+
+
 def nontrivial(b):
     acts = [s['a'] for s in b['steps']]
     return 'Set' in acts and any(a.startswith('Fetch') for a in acts) and \
-        (overlap(b) or any(a in ('Clean', 'Pause', 'Restart') for a in acts))
+        (overlap(b) or any(a in ('Clean', 'CleanBegin', 'SetFail', 'Pause', 'Restart') for a in acts))
 
 
 def execute(behaviours, d, timeout=2400):
@@ -84,26 +99,39 @@ def execute(behaviours, d, timeout=2400):
 def judge(rep, behaviours, trace):
     events = core.read_ndjson(trace)
     for e in events:
-        if e['a'] in ('Set', 'Pause', 'Clean') and e['obs']['err'] != '':
-            # a call that failed for an infrastructure reason may or may not have taken effect
+        if e['a'] == 'Pause' and e['obs']['err'] != '':
             raise core.Inconclusive('%s failed in behaviour %s: %s' % (e['a'], e['t'], e['obs']['err']))
+        # (a SetCursor that fails is judged: its record may stay uncommitted in the log - "SetFail")
     res = core.tlc_trace('Trace_Cursors.tla', 'Trace_Cursors.cfg', trace, timeout=1800)
     by_id = {b['id']: b for b in behaviours}
-    bad = {}
-    for kind, tid, line, action, name in res['fails']:
+    first_line = {}
+    for i, e in enumerate(events):
+        first_line.setdefault(e['t'], i + 1)
+    seen = set()
+    for kind, tid, line, action, name in sorted(res['fails'], key=lambda f: (f[1], f[2])):
+        ev = events[line - 1]
         if kind == 'I':
             rep.drift({'behaviour': tid, 'line': line, 'action': action, 'what': name,
-                       'event': {k: events[line - 1][k] for k in ('a', 'args', 'obs')}})
+                       'event': {k: ev[k] for k in ('a', 'args', 'obs')}})
             continue
-        bad.setdefault(tid, []).append((line, action, name))
-    for tid, fl in bad.items():
-        fl.sort()
-        line, action, name = fl[0]
         b = by_id[tid]
-        sig = 'C11|%s|%s|%s' % (name, action, 'overlap' if overlap(b) else 'seq')
-        ev = events[line - 1]
-        rep.classify(sig, 'first failing step: line %d %s args %s returned %s' % (line, action, ev['args'], ev['obs']),
-                     {'behaviours': [b]})
+        idx = line - first_line[tid] - 1          # index of the failing step
+        # is a clean of the cursors partition between its two steps at that moment?
+        inside = False
+        for s in b['steps'][:idx]:
+            if s['a'] == 'CleanBegin':
+                inside = True
+            elif s['a'] == 'CleanEnd':
+                inside = False
+        cls = 'cleaning' if inside else ('overlap' if overlap(b) else 'seq')
+        what = 'err=' + ev['obs']['err'] if ev['obs']['err'] not in ('', 'done', 'pending') else 'value'
+        sig = 'C11|%s|%s|%s|%s' % (name, action, cls, what)
+        if (tid, sig) in seen:
+            continue
+        seen.add((tid, sig))
+        # replay = the behaviour up to and including the failing step
+        rep.classify(sig, 'failing step: line %d %s args %s returned %s' % (line, action, ev['args'], ev['obs']),
+                     {'behaviours': [dict(b, steps=b['steps'][:idx + 1])]})
     return res
 
 
@@ -131,6 +159,8 @@ def run(rep, tier, seed, replay):
     rep.cov['evaluations'] = len(behaviours)
     rep.cov['distinct_nontrivial'] = len({core.sha([b['cfg'], b['steps']]) for b in behaviours if nontrivial(b)})
     rep.cov['overlapping_histories'] = len({core.sha(b['steps']) for b in behaviours if overlap(b)})
+    rep.cov['rolls_during_clean'] = sum(1 for b in behaviours if clean_window_sets(b))
+    rep.cov['failed_sets'] = sum(1 for b in behaviours for s in b['steps'] if s['a'] == 'SetFail')
     rep.cov['fetches_judged'] = sum(1 for b in behaviours for s in b['steps'] if s['a'] in ('Fetch', 'FetchEnd', 'FetchBegin'))
     rep.cov['rule'] = ('behaviours = TLC simulation of MC_Cursors (seeded, <= 16 steps, 3 keys, 2 clients, cache on/off); '
                        'non-trivial = has a set and a fetch and (a set overlapping a split fetch, or a clean / pause / '
